@@ -2,6 +2,7 @@ SPECIFICATION Spec
 CONSTANTS
   N = 3
   MaxEdges = 2
+  Prefix = FALSE
   EdgeKinds <- Kinds4
 INVARIANT Emit
 CHECK_DEADLOCK FALSE
